@@ -111,8 +111,10 @@ def item_src(P, D, name, mode, entry, for_rustc=False, generics="", extra_attrs=
         body = fields_src(v)
         semi = "" if v["shape"] == "named" else ";"
         return "%s struct %s%s %s%s" % (head, name, generics, body, semi)
-    vs = ", ".join("%s A%d %s" % (level_attrs_src(v["vcmp"]), i, fields_src(v)) for i, v in enumerate(P["variants"]))
-    return "%s enum %s%s { %s }" % (head, name, generics, vs)
+    # explicit discriminants (rendering only: the documented order is the declaration position)
+    disc = any("disc" in v for v in P["variants"])
+    vs = ", ".join("%s A%d %s%s" % (level_attrs_src(v["vcmp"]), i, fields_src(v), (" = %d" % v["disc"]) if "disc" in v else "") for i, v in enumerate(P["variants"]))
+    return "%s %senum %s%s { %s }" % (head, "#[repr(u8)] " if disc else "", name, generics, vs)
 
 
 def values_of(P):
@@ -226,7 +228,8 @@ def classes_of(resp, D, entry):
             pos += 1
             continue
         n = 0
-        while pos < len(items) and items[pos]["kind"] == "impl" and items[pos]["trait"] == TRAIT_PATH[t]:
+        # (the last path segment identifies the trait: `::core::cmp::Ord` and `::std::cmp::Ord` are the same thing)
+        while pos < len(items) and items[pos]["kind"] == "impl" and items[pos]["trait"].split("::")[-1] == t:
             pos += 1
             n += 1
         while n and pos < len(items) and items[pos]["kind"] == "const":   # Eq's hidden assertion item
@@ -247,6 +250,76 @@ def impl_key(resp):
 # ------------------------------------------------------------------------------------------------
 def plain():
     return {a: dict(NOOPT) for a in ATTRS}
+
+
+MATRIX_ORD = [("ign", False, "none"), ("rev", True, "none"), ("key", False, "key"), ("by", False, "by"), ("rkey", True, "key"), ("rby", True, "by")]
+MATRIX_EQ = [("ign", False, "none"), ("key", False, "key"), ("by", False, "by")]
+
+
+def random_cfg(rnd, p_plain=0.4):
+    c = plain()
+    if rnd.random() < p_plain:
+        return c
+    r = rnd.random()
+    if r < 0.55:
+        attrs = ["ord"]                       # `ord` affects every trait: such fields are accepted under any derived set
+    elif r < 0.75:
+        attrs = ["ord", rnd.choice(["partial_ord", "eq", "partial_eq", "hash"])]
+    else:
+        attrs = rnd.sample(ATTRS, rnd.choice([1, 2, 3]))
+    for a in attrs:
+        name, rev, sel = rnd.choice(MATRIX_ORD if a in ("ord", "partial_ord") else MATRIX_EQ)
+        c[a] = {"ign": name == "ign", "rev": rev, "sel": sel}
+    return c
+
+
+def random_item(rnd):
+    """item with SEVERAL attributed fields (the matrix has one): 1..3 variants, 0..3 fields each, explicit discriminants sometimes"""
+    kind = rnd.choice(["struct", "enum", "enum"])
+    budget = 40
+
+    def mkfields(n):
+        nonlocal budget
+        fs = []
+        for _ in range(n):
+            c = random_cfg(rnd)
+            dom = rnd.choice([2, 3]) if c != plain() else 2
+            if budget // dom < 1:
+                dom = 1
+            budget = max(1, budget // dom)
+            fs.append(field(c, dom=dom))
+        return fs
+    if kind == "struct":
+        shape = rnd.choice(["named", "tuple"])
+        return mkP("struct", [{"shape": shape, "fields": mkfields(rnd.choice([2, 2, 3]))}])
+    vs = []
+    nv = rnd.choice([1, 2, 3, 4])
+    unit_only = rnd.random() < 0.15
+    for vi in range(nv):
+        shape = "unit" if unit_only else rnd.choice(["unit", "tuple", "named", "tuple"])
+        budget = 12
+        vs.append({"shape": shape, "fields": [] if shape == "unit" else mkfields(rnd.choice([1, 2, 3]))})
+    P = mkP("enum", vs)
+    if rnd.random() < 0.4:
+        ds = rnd.sample(range(0, 9), nv)        # out of declaration order on purpose
+        for v, d in zip(P["variants"], ds):
+            v["disc"] = d
+    return P
+
+
+def cfg_summary(P):
+    out = []
+    for vi, v in enumerate(P["variants"]):
+        for j, f in enumerate(v["fields"]):
+            bits = []
+            for a in ATTRS:
+                o = f["cmp"][a]
+                x = ("i" if o["ign"] else "") + ("r" if o["rev"] else "") + {"none": "", "key": "k", "by": "b"}[o["sel"]]
+                if x:
+                    bits.append("%s:%s" % (a, x))
+            if bits:
+                out.append("%d.%d[%s]" % (vi + 1, j + 1, ",".join(bits)))
+    return " ".join(out) or "-"
 
 
 def pv_shapes():
